@@ -2,6 +2,7 @@ package main
 
 import (
 	"fmt"
+	"strings"
 
 	"golang.org/x/tools/go/ssa"
 )
@@ -48,7 +49,17 @@ func (x *Exec) siteAssertions(st *State, in ssa.Instruction, name string, args [
 			for i := range args {
 				ov[fmt.Sprintf("arg%d", i)] = dualOf(args[i])
 			}
-			t := x.evalClauseDual(ca, x.fn, st, x.entry, nil, false, ov)[0].T
+			oldSt := x.entry
+			if strings.Contains(ca.Text, "athead(") {
+				// athead(e): e in the state at the head of the innermost loop around this call
+				// (start of the current iteration); such a clause does not use old()
+				if hs := x.headStateFor(in); hs != nil {
+					oldSt = hs
+				} else {
+					x.errorf("athead() used at %s, which is not inside a loop", ca.Site)
+				}
+			}
+			t := x.evalClauseDual(ca, x.fn, st, oldSt, nil, false, ov)[0].T
 			nth := 0
 			for _, other := range x.fc.CallAsrt {
 				if other.Site == ca.Site {
@@ -63,4 +74,21 @@ func (x *Exec) siteAssertions(st *State, in ssa.Instruction, name string, args [
 		}
 	}
 	return site
+}
+
+// headStateFor: the state recorded at the head (after havoc and invariants) of the
+// innermost loop whose body contains the instruction.
+func (x *Exec) headStateFor(in ssa.Instruction) *State {
+	var best *loopInfo
+	for _, li := range x.loops {
+		if li.body[in.Block()] || li.head == in.Block() {
+			if best == nil || len(li.body) < len(best.body) {
+				best = li
+			}
+		}
+	}
+	if best == nil {
+		return nil
+	}
+	return x.headStates[best.head]
 }
